@@ -41,6 +41,13 @@ check(
     "Code-quoted defaults are excluded by construction (finding P43); doc-derived clauses are relaxed where the embedded docstring is not recognised (P25, P41, P42) and argparse zero-value classes (P13).",
 )
 
+check(
+    "C03",
+    "exhaustive hop-sequence enumeration (all 155 sequences of length<=3 per generated interface) + Hypothesis RuleBasedStateMachine over hop histories; invariant-after-every-step and commutation oracle",
+    "Generated-input search over interfaces of the common domain and over conversion histories: the invariant 'names, order, types, defaults equal the start interface' is evaluated after every hop of every sequence of length<=3 (complete per interface) and of machine-drawn histories up to 5 hops, which shrink as one value; commutation is compared per multiset of hops.",
+    "Relaxations are decided on (start parameter, history) only: the documented '=None' of the function hop, P13 (argparse zero values / single-member Literal) and P14 (Optional widening after a function hop); names and order are never relaxed.",
+)
+
 NOT_YET = "check not built yet in this round (work in progress; DESIGN.md section 4 has the plan)"
 
 
